@@ -182,6 +182,8 @@ pub struct Renderer<'a, 'b> {
     /// a named type is called `T` (like the type parameters) / the alias through which generic bodies mention it
     t_taken: bool,
     t_alias: Option<String>,
+    /// > 0 while the operand of an Exclude is being written in place (0 again inside a named definition emitted on the way)
+    engine_operand: u32,
 }
 
 fn reaches(env: &Env, from: usize, target: usize, seen: &mut Vec<bool>) -> bool {
@@ -248,6 +250,7 @@ impl<'a, 'b> Renderer<'a, 'b> {
             last_members: vec![],
             t_taken: false,
             t_alias: None,
+            engine_operand: 0,
         }
     }
 
@@ -336,6 +339,7 @@ impl<'a, 'b> Renderer<'a, 'b> {
             }
         }
         let prev = self.in_generic_def;
+        let prev_operand = std::mem::replace(&mut self.engine_operand, 0);
         self.in_generic_def = if self.def_generic[i].is_some() { Some(i) } else { None };
         let params = if self.def_generic[i].is_some() { "<T>" } else { "" };
         let doc = self.doc();
@@ -351,6 +355,7 @@ impl<'a, 'b> Renderer<'a, 'b> {
             }
         };
         self.in_generic_def = prev;
+        self.engine_operand = prev_operand;
         self.decls.push(decl);
     }
 
@@ -401,8 +406,59 @@ impl<'a, 'b> Renderer<'a, 'b> {
         }
         let direct = std::mem::replace(&mut self.inter_member, false);
         self.direct_inter_member = direct;
+        let (inter_before, decls_before) = (self.mark_count("inter_unmerged_no_key_conflict"), self.decls.len());
         let base = self.ty_inner(d, path);
-        self.wrap(base, d)
+        let (inter_after, decls_after) = (self.mark_count("inter_unmerged_no_key_conflict"), self.decls.len());
+        let engine_before = self.mark_count("indexed_tuple");
+        let t = self.wrap(base, d);
+        if self.mark_count("indexed_tuple") > engine_before && decls_after == decls_before {
+            // the whole expression became the operand of an indexed access the semantic engine computes: intersections
+            // written in place inside it are re-materialised (and merged) by the engine, they do not reach the validator
+            // as written
+            self.move_marks("inter_unmerged_or_named", "inter_under_engine_operand", inter_after - inter_before);
+            self.move_marks("inter_unmerged_no_key_conflict", "inter_under_engine_operand_counted", inter_after - inter_before);
+        }
+        t
+    }
+
+    /// do two members of this intersection declare the same key differently (or is a member not an object type, so that
+    /// the question cannot be answered)?  Judged on the denotations, through names.
+    fn key_conflict(&self, ms: &[D]) -> bool {
+        let r = Ref::new(self.env, Mode::Open);
+        let mut seen: Vec<(String, bool, D)> = vec![];
+        for m in ms {
+            match r.head(m) {
+                D::Object { props, index: None } => {
+                    for p in props {
+                        if let Some(q) = seen.iter().find(|q| q.0 == p.key) {
+                            if q.1 != p.optional || q.2 != p.ty {
+                                return true;
+                            }
+                        } else {
+                            seen.push((p.key.clone(), p.optional, p.ty.clone()));
+                        }
+                    }
+                }
+                _ => return true,
+            }
+        }
+        false
+    }
+
+    fn mark_count(&self, k: &str) -> u32 {
+        self.used.get(k).copied().unwrap_or(0)
+    }
+    fn move_marks(&mut self, from: &str, to: &str, n: u32) {
+        if n == 0 {
+            return;
+        }
+        let left = self.mark_count(from).saturating_sub(n);
+        if left == 0 {
+            self.used.remove(from);
+        } else {
+            self.used.insert(from.to_string(), left);
+        }
+        *self.used.entry(to.to_string()).or_insert(0) += n;
     }
 
     /// generic wrappers applicable to any type expression
@@ -734,7 +790,19 @@ impl<'a, 'b> Renderer<'a, 'b> {
                         }
                     }
                 }
-                self.mark(if all_inline && mergeable { "inter_inline_mergeable" } else { "inter_unmerged_or_named" });
+                let conflict = self.key_conflict(ms);
+                if !(all_inline && mergeable) && !conflict && self.engine_operand > 0 {
+                    // written in place inside an Exclude operand and unmerged only because a member is named or spelled
+                    // indirectly: the semantic engine re-materialises the members as plain objects, which do merge
+                    self.mark("inter_under_engine_operand");
+                } else {
+                    self.mark(if all_inline && mergeable { "inter_inline_mergeable" } else { "inter_unmerged_or_named" });
+                }
+                if !(all_inline && mergeable) && !conflict && self.engine_operand == 0 {
+                    // unmerged only because a member is named or spelled indirectly: once the semantic engine re-materialises
+                    // the members (inside an Exclude / indexed-access operand) they are plain objects and do merge
+                    self.mark("inter_unmerged_no_key_conflict");
+                }
                 if self.cfg.has(Feat::Order) && parts.len() > 1 && self.in_generic_def.is_none() {
                     let r = self.s.below(parts.len());
                     parts.rotate_left(r);
@@ -1133,10 +1201,12 @@ impl<'a, 'b> Renderer<'a, 'b> {
                 if let (true, Some(x)) = (safe, self.disjoint_extra(ms)) {
                     self.mark("exclude");
                     let mut parts = vec![];
+                    self.engine_operand += 1;
                     for m in ms {
                         let t = self.ty(m);
                         parts.push(need(t, Prec::Inter));
                     }
+                    self.engine_operand -= 1;
                     parts.insert(self.s.below(parts.len() + 1), x.to_string());
                     return atom(format!("Exclude<{}, {}>", parts.join(" | "), x));
                 }
@@ -1199,6 +1269,29 @@ impl<'a, 'b> Renderer<'a, 'b> {
             ("Date", JsVal::Date(Some(0))),
             ("boolean", JsVal::Bool(true)),
         ];
+        // an object type with a required key no generated type declares: no member is assignable to it (so TypeScript's
+        // Exclude keeps every member whole), but the engine has to subtract a record from records, which leaves
+        // `member & Not<{ zz_excl: "x" }>` for the clean-up to deal with
+        // (only where none of the engine's listed findings has its trigger in the union: with a record among the operands
+        // they would all come into play and say nothing new)
+        if self.s.chance(1, 3) && ms.iter().all(|m| refm.member(m, &JsVal::Sym) == Tri::No) {
+            let u = D::Union(ms.to_vec());
+            // (and with one record-like member at most: the engine splits a union of records into clauses per atom, and
+            // once the negations are dropped a clause `Gamma & Alpha` remains next to `Gamma`, which widens the keys strict
+            // mode takes as declared - the dropped-negation finding seen through C11, not looked for here)
+            fn record_like(r: &Ref, d: &D, depth: usize) -> usize {
+                match r.head(d) {
+                    D::Object { .. } | D::Inter(_) => 1,
+                    D::Union(inner) if depth < 6 => inner.iter().map(|m| record_like(r, m, depth + 1)).sum(),
+                    _ => 0,
+                }
+            }
+            let records: usize = ms.iter().map(|m| record_like(&refm, m, 0)).sum();
+            if records <= 1 && crate::csem::pair_features(self.env, &u, &u).is_empty() {
+                self.mark("exclude_record_operand");
+                return Some("{ zz_excl: \"x\" }");
+            }
+        }
         let start = self.s.below(cands.len());
         for k in 0..cands.len() {
             let (txt, probe) = &cands[(start + k) % cands.len()];
